@@ -103,7 +103,7 @@ def _pairs():
     # ---- metrics
     for m in ('qdist', 'qeip', 'qcip', 'qad'):
         add(m, [P, Q], (lambda A, p, q, m=m: getattr(_Mx(A), m)(p, q)), (lambda A, p, q, m=m: getattr(_Mx(A), m)(p, q)),
-            domain='quat2', tol=(64, 1e-9), two=(m == 'qeip'), trace=(m != 'qad'))
+            domain='quat2', tol=(64, 1e-9), two=(m == 'qeip'))
     add('chordal', [M, M2], lambda A, R, S: _Mx(A).chordal(R, S), lambda A, R, S: _Mx(A).chordal(R, S), domain='dcm2')
     add('identity_deviation', [M, M2], lambda A, R, S: _Mx(A).identity_deviation(R, S), lambda A, R, S: _Mx(A).identity_deviation(R, S),
         domain='dcm2', trace=False)
@@ -112,8 +112,7 @@ def _pairs():
     # ---- every other function with an `.ndim` switch (found by introspection, see twin_coverage)
     add('euclidean', [ANG, ANG2], lambda A, x, y: _Mx(A).euclidean(x, y), lambda A, x, y: _Mx(A).euclidean(x, y), domain='ang2', two=True)
     add('rmse', [ANG, ANG2], lambda A, x, y: _Mx(A).rmse(x, y), lambda A, x, y: _Mx(A).rmse(x, y), domain='ang2')
-    add('rmse_matrices', [M, M2], lambda A, R, S: _Mx(A).rmse_matrices(R, S), lambda A, R, S: _Mx(A).rmse_matrices(R, S), domain='dcm2',
-        trace=False)
+    add('rmse_matrices', [M, M2], lambda A, R, S: _Mx(A).rmse_matrices(R, S), lambda A, R, S: _Mx(A).rmse_matrices(R, S), domain='dcm2')
     add('q_conj', [Q], lambda A, q: _O(A).q_conj(q), lambda A, q: _O(A).q_conj(q), trace=False)
     add('q_norm', [Q], lambda A, q: _O(A).q_norm(q), lambda A, q: _O(A).q_norm(q), trace=False)
     add('am2angles', [AC, MG], lambda A, a, m: _O(A).am2angles(a, m)[0], lambda A, a, m: _O(A).am2angles(a, m), domain='am', trace=False,
@@ -179,10 +178,10 @@ def _stack_sym(arrs):
     return symnp.array([a.tolist() for a in arrs])
 
 
-def targets(all_pairs=False):
+def targets(all_pairs=False, only=None):
     T = []
     for p in PAIRS:
-        if not p.trace and not all_pairs:
+        if (not p.trace and not all_pairs) or (only is not None and p.name != only):
             continue
         T.append(Target(f'C07_{p.name}_s', p.inputs, (lambda A, v, p=p: p.s(A, *[_sym_group(v, g) for g in p.groups])),
                         max_paths=p.max_paths, doc=f'scalar entry point of twin {p.name}. {p.doc}'))
@@ -194,6 +193,75 @@ def targets(all_pairs=False):
                             (lambda A, v, p=p: p.b(A, *[_stack_sym([_sym_group(v, g, OTHER), _sym_group(v, g)]) for g in p.groups])[1]),
                             max_paths=p.max_paths, doc=f'array entry point of twin {p.name} on a two-row batch, row 1'))
     return T
+
+
+# pairs whose twin equality is established by structural comparison of the two regenerated DAGs (tools/props/C07dag.py):
+# 'equal' = same outcome on every path; 'accepts' = whenever the scalar route returns a value the array route returns the same
+DAG = {'fqa': 'equal', 'famc': 'equal', 'triad_rotmat_NED': 'equal', 'triad_rotmat_ENU': 'equal', 'triad_quaternion_NED': 'equal',
+       'triad_quaternion_ENU': 'equal', 'q_conj': 'equal', 'q_norm': 'equal', 'am2angles': 'equal',
+       'dcm_shepperd': 'accepts', 'dcm_hughes': 'accepts', 'dcm_sarabandi': 'accepts', 'complementary_am': 'accepts',
+       'tilt_rotmat': 'accepts', 'saam_rotmat': 'accepts'}
+DAG_THOROUGH = {'triad_quaternion_NED', 'triad_quaternion_ENU', 'dcm_sarabandi'}      # > 2 s each to trace
+
+
+def pregen(ctx):
+    """DAG twins: trace both sides on the same symbols (hash-consed), compare structurally, and tie the traced DAGs to the
+    implementation by evaluating them in binary64 (no Coq involved on this route)"""
+    import os
+    from pysym import gen, loader, emit
+    from vlib.core import call_outcome, flat_floats
+    from . import C07dag
+    pkg = loader.load()
+    thorough = ctx.tier == 'thorough' or os.environ.get('VERIF_TIER_EFFECTIVE') == 'thorough'
+    for name, mode in DAG.items():
+        if name in DAG_THOROUGH and not thorough:
+            continue
+        p = BYNAME[name]
+        trees = {}
+        for side in ('s', 'b1'):
+            t = ctx.targets.get(f'C07_{name}_{side}')
+            if t is None:
+                t = [x for x in targets(all_pairs=True, only=name) if x.name == f'C07_{name}_{side}'][0]
+                gen.trace(t, pkg)
+            trees[side] = t
+        ctx.obligations += 1
+        label = f'dag:{name}'
+        bad = [t for t in trees.values() if t.error]
+        if bad:
+            ctx.broken.append({'kind': 'translation', 'target': bad[0].name, 'error': bad[0].error})
+            ctx.say(f"[dag] {name}: FAILED to trace: {bad[0].error}")
+            continue
+        r = C07dag.compare(trees['s'].tree, trees['b1'].tree, mode)
+        if r['ok']:
+            ctx.discharged += 1
+            ctx.theorems.append(('C07dag.py', f'dag_{mode}:{name}'))
+        else:
+            ctx.broken.append({'kind': 'proof', 'file': 'C07dag.py', 'error': f'regenerated array row and scalar DAGs differ ({mode})',
+                               'theorems': [label], 'detail': repr(r['mismatches'])})
+        ctx.say(f"[dag] {name}: {'same DAG' if r['identical'] else 'same leaves under the scalar path conditions' if r['ok'] else 'DIFFERENT'} "
+                f"(mode {mode}, {r['leaf_pairs']} leaf pairs, {r['n_mismatch']} mismatches; {trees['s'].npaths}/{trees['b1'].npaths} paths)")
+        # correspondence of the traced DAGs with the implementation (float evaluation of the DAG in Python)
+        rows = rows_for(p, ctx.rng, 12)
+        for side, impl in (('s', lambda r: impl_single(p, r)), ('b1', lambda r: impl_batch(p, [r])[0])):
+            t = trees[side]
+            if f'C07_{name}_{side}' in ctx.targets:
+                continue            # emitted to Coq: covered by ctx.correspond
+            for _, r in rows:
+                c = cm.d(p.inputs, r)
+                kind, val = emit.run_tree(t.tree, c)[:2]
+                io = call_outcome(impl, list(map(float, r)))
+                if kind == 'val' and not np.all(np.isfinite(np.array(val, dtype=float))):
+                    continue        # 0/0 in binary64 (e.g. SAAM on a level sample): outside the real-number model; the package now rejects NaN
+                ok = (kind == io[0]) if (kind == 'raise' or io[0] == 'raise') else None
+                if ok is None:
+                    iv = np.array(_flat(io[1]), dtype=float)
+                    mv = np.array(val, dtype=float)
+                    ok = iv.shape == mv.shape and bool(np.all((np.isnan(iv) & np.isnan(mv)) |
+                                                             (np.abs(iv - mv) <= 1e-9 + 4096 * 2.0 ** -52 * np.maximum(1.0, np.abs(iv)))))
+                if ok:
+                    ctx.agree(f'dagcorr:{name}_{side}')
+                else:
+                    ctx.disagree(f'dagcorr:{name}_{side}', c, val if kind == 'val' else kind, io[1] if io[0] == 'val' else io[:2])
 
 
 def targets_all():
